@@ -219,6 +219,34 @@ pub open spec fn is_req_of_kind(d: Seq<u8>, kind: u8) -> bool { exists|p: Seq<u8
 pub open spec fn only_kind_since(sent: Seq<Seq<u8>>, from: int, kind: u8) -> bool {
     forall|i: int| from <= i < sent.len() ==> is_req_of_kind(#[trigger] sent[i], kind)
 }
+/// some datagram in the log is a request of kind `kind`
+pub open spec fn has_kind(att: Seq<Seq<u8>>, kind: u8) -> bool { exists|i: int| 0 <= i < att.len() && is_req_of_kind(#[trigger] att[i], kind) }
+/// a request of kind `kind` has been handed to the transport (and earlier attempts are untouched)
+pub open spec fn attempted(a0: Seq<Seq<u8>>, a1: Seq<Seq<u8>>, kind: u8) -> bool { grew(a0, a1) && has_kind(a1, kind) }
+pub broadcast proof fn lemma_has_kind_grew(a: Seq<Seq<u8>>, b: Seq<Seq<u8>>, kind: u8)
+    requires grew(a, b), has_kind(a, kind)
+    ensures #![trigger grew(a, b), has_kind(a, kind)] has_kind(b, kind)
+{
+    let i = choose|i: int| 0 <= i < a.len() && is_req_of_kind(#[trigger] a[i], kind);
+    assert(b[i] == a[i]);
+}
+pub proof fn lemma_has_kind_push(a: Seq<Seq<u8>>, x: Seq<u8>, kind: u8)
+    ensures
+        is_req_of_kind(x, kind) ==> has_kind(a.push(x), kind),
+        grew(a, a.push(x)),
+        has_kind(a, kind) ==> has_kind(a.push(x), kind),
+{
+    let b = a.push(x);
+    assert(b[a.len() as int] == x);
+    if has_kind(a, kind) {
+        let i = choose|i: int| 0 <= i < a.len() && is_req_of_kind(#[trigger] a[i], kind);
+        assert(b[i] == a[i]);
+    }
+}
+pub proof fn lemma_grew_trans(a: Seq<Seq<u8>>, b: Seq<Seq<u8>>, c: Seq<Seq<u8>>)
+    requires grew(a, b), grew(b, c)
+    ensures grew(a, c)
+{}
 /// the send log only grew (prefix preserved)
 pub open spec fn grew(old_sent: Seq<Seq<u8>>, new_sent: Seq<Seq<u8>>) -> bool {
     old_sent.len() <= new_sent.len() && forall|i: int| 0 <= i < old_sent.len() ==> #[trigger] new_sent[i] == old_sent[i]
@@ -232,7 +260,7 @@ fn_attrs {
 spec {
     requires buffer_size <= 65535,
     ensures
-        final(self).socket.sent() == old(self).socket.sent(),
+        final(self).socket.sent() == old(self).socket.sent(), final(self).socket.attempts() == old(self).socket.attempts(),
         final(self).retry_count == old(self).retry_count,
         final(self).socket.pending() <= old(self).socket.pending(),
         final(self).socket.recvd() >= old(self).socket.recvd(),
@@ -244,12 +272,12 @@ body_start {
 }
 loop 1 {
     invariant
-        self.socket.sent() == old(self).socket.sent(), self.retry_count == old(self).retry_count,
+        self.socket.sent() == old(self).socket.sent(), self.retry_count == old(self).retry_count, self.socket.attempts() == old(self).socket.attempts(),
         self.socket.recvd() >= old(self).socket.recvd() + 1, self.socket.pending() < old(self).socket.pending(),
 }
 loop 2 {
     invariant
-        self.socket.sent() == old(self).socket.sent(), self.retry_count == old(self).retry_count,
+        self.socket.sent() == old(self).socket.sent(), self.retry_count == old(self).retry_count, self.socket.attempts() == old(self).socket.attempts(),
         self.socket.recvd() >= old(self).socket.recvd() + 1, self.socket.pending() < old(self).socket.pending(),
 }
 @*/
@@ -272,9 +300,12 @@ spec {
         // C09/C11: nothing but requests of this kind is ever sent
         grew(old(self).socket.sent(), final(self).socket.sent()),
         only_kind_since(final(self).socket.sent(), old(self).socket.sent().len() as int, kind),
+        // the request is always attempted
+        attempted(old(self).socket.attempts(), final(self).socket.attempts(), kind),
 }
 body_start {
     broadcast use lemma_dec_enc_u32, lemma_enc_len_u32;
+    let ghost att0 = self.socket.attempts();
     let ghost sent0 = self.socket.sent();
     let ghost recvd0 = self.socket.recvd();
     proof { lemma_be_ffffffff(); }
@@ -286,10 +317,18 @@ loop 1 {
         self.socket.sent()[sent0.len() as int] == a2s_request(kind, payload@),
         self.socket.sent().len() - sent0.len() <= (self.socket.recvd() - recvd0),
         grew(sent0, self.socket.sent()), only_kind_since(self.socket.sent(), sent0.len() as int, kind),
+        attempted(att0, self.socket.attempts(), kind),
     decreases self.socket.pending(),
+}
+before "self.socket.send(&request_initial_packet)?;" {
+    proof {
+        assert(request_initial_packet@ == a2s_request(kind, payload@)); assert(is_req_of_kind(request_initial_packet@, kind));
+        lemma_has_kind_push(att0, request_initial_packet@, kind);
+    }
 }
 after "self.socket.send(&request_initial_packet)?;" {
     proof {
+        assert(self.socket.attempts()[att0.len() as int] == request_initial_packet@);
         assert(self.socket.sent() == sent0.push(request_initial_packet@));
         assert(request_initial_packet@ == a2s_request(kind, payload@));
         assert(is_req_of_kind(request_initial_packet@, kind));
@@ -303,6 +342,7 @@ after "self.socket.send(&challenge_packet)?;" {
     }
 }
 before "self.socket.send(&challenge_packet)?;" {
+    proof { lemma_has_kind_push(self.socket.attempts(), challenge_packet@, kind); lemma_grew_trans(att0, self.socket.attempts(), self.socket.attempts().push(challenge_packet@)); }
     // challenge echo: the datagram about to be sent is the request of the same kind carrying exactly the bytes of the
     // challenge reply just received
     assert(challenge_packet@ == a2s_request(kind, if kind == 0x54u8 { default_payload(Request::Info) + challenge@ } else { challenge@ }));
@@ -387,6 +427,7 @@ spec {
         r is Ok <==> a2s_exchange(*old(self), *engine, protocol, kind, payload@) is Ok,
         r is Ok ==> r->Ok_0@ == a2s_exchange(*old(self), *engine, protocol, kind, payload@)->Ok_0,
         r is Err ==> r->Err_0.kind == a2s_exchange(*old(self), *engine, protocol, kind, payload@)->Err_0,
+        attempted(old(self).socket.attempts(), final(self).socket.attempts(), kind),
         grew(old(self).socket.sent(), final(self).socket.sent()),
         only_kind_since(final(self).socket.sent(), old(self).socket.sent().len() as int, kind),
 }
@@ -401,6 +442,7 @@ spec {
         r is Ok <==> a2s_reply(*old(self), *engine, protocol, kind) is Ok,
         r is Ok ==> r->Ok_0@ == a2s_reply(*old(self), *engine, protocol, kind)->Ok_0,
         r is Err ==> r->Err_0.kind == a2s_reply(*old(self), *engine, protocol, kind)->Err_0,
+        attempted(old(self).socket.attempts(), final(self).socket.attempts(), req_code(kind)),
         grew(old(self).socket.sent(), final(self).socket.sent()),
         only_kind_since(final(self).socket.sent(), old(self).socket.sent().len() as int, req_code(kind)),
 }
@@ -462,6 +504,7 @@ spec {
         final(self).retry_count == old(self).retry_count,
         grew(old(self).socket.sent(), final(self).socket.sent()),
         only_kind_since(final(self).socket.sent(), old(self).socket.sent().len() as int, 0x54u8),
+        attempted(old(self).socket.attempts(), final(self).socket.attempts(), 0x54u8),
         a2s_reply(*old(self), *engine, 0, Request::Info) is Err ==> r is Err && r->Err_0.kind == a2s_reply(*old(self), *engine, 0, Request::Info)->Err_0,
         // Source layout (also used for GoldSrc(false)): left inverse of the documented encoding
         forall|s: SrcInfo| !(*engine == Engine::GoldSrc(true)) && src_valid(s)
@@ -527,6 +570,7 @@ spec {
         final(self).retry_count == old(self).retry_count,
         grew(old(self).socket.sent(), final(self).socket.sent()),
         only_kind_since(final(self).socket.sent(), old(self).socket.sent().len() as int, 0x55u8),
+        attempted(old(self).socket.attempts(), final(self).socket.attempts(), 0x55u8),
         a2s_reply(*old(self), *engine, protocol, Request::Players) is Err ==> r is Err && r->Err_0.kind == a2s_reply(*old(self), *engine, protocol, Request::Players)->Err_0,
         forall|ps: Seq<PlayerSt>| players_valid(ps)
             && a2s_reply(*old(self), *engine, protocol, Request::Players) == Ok::<Seq<u8>, GDErrorKind>(#[trigger] enc_players_reply(ps, is_ship(*engine)))
@@ -575,6 +619,7 @@ spec {
         final(self).retry_count == old(self).retry_count,
         grew(old(self).socket.sent(), final(self).socket.sent()),
         only_kind_since(final(self).socket.sent(), old(self).socket.sent().len() as int, 0x56u8),
+        attempted(old(self).socket.attempts(), final(self).socket.attempts(), 0x56u8),
         a2s_reply(*old(self), *engine, protocol, Request::Rules) is Err ==> r is Err && r->Err_0.kind == a2s_reply(*old(self), *engine, protocol, Request::Rules)->Err_0,
         forall|rs: Seq<(Seq<char>, Seq<char>)>| rules_valid(rs)
             && a2s_reply(*old(self), *engine, protocol, Request::Rules) == Ok::<Seq<u8>, GDErrorKind>(#[trigger] enc_rules_reply(rs))
@@ -640,6 +685,9 @@ pub proof fn lemma_kinds_distinct(d: Seq<u8>, k1: u8, k2: u8)
 
 /*@ fn file=crates/lib/src/protocols/valve/protocol.rs name=get_response props=C11,C01,C02
 use R1 R4:maybe_gather@crates/lib/src/utils.rs
+body_start {
+    broadcast use lemma_has_kind_grew;
+}
 spec {
     ensures
         // app-id check: with checking on, a response is only returned for an expected app id, otherwise BadGame ...
@@ -662,6 +710,10 @@ tail {
             if is_req_of_kind(sent[i], 0x55u8) { lemma_kinds_distinct(sent[i], 0x55u8, 0x56u8); }
             if is_req_of_kind(sent[i], 0x56u8) { lemma_kinds_distinct(sent[i], 0x56u8, 0x55u8); }
         }
+        // ... and a section that is not Skip IS requested (whatever happened to the other section)
+        let att = client.socket.attempts();
+        assert(gather_settings.players != GatherToggle::Skip ==> has_kind(att, 0x55u8));
+        assert(gather_settings.rules != GatherToggle::Skip ==> has_kind(att, 0x56u8));
         assert(gather_settings.players == GatherToggle::Skip ==> never_sent(sent, 0x55u8));
         assert(gather_settings.rules == GatherToggle::Skip ==> never_sent(sent, 0x56u8));
     }
